@@ -236,3 +236,20 @@ def replay_any(v, run_scenario):
 
 
 REPLAY = {'*': replay_any}
+
+
+def _undelegated_d8(ctx):
+    """'a batch of unbond requests is undelegated for floor(requests x rate) coins' with many delegation entries (8 validators
+    with equal stake): the Undelegate messages sum to exactly what leaves the books, so no cap on the number of messages or of
+    validators considered applies (world, claims and replay of C02's unbond obligation)"""
+    from checks.c02 import mk as mk2, equal_delegations
+    return mk2('unbond_bsei', 1, 8, shape=equal_delegations)(ctx)
+
+
+def _replay_d8(v, run_scenario):
+    from checks.c02 import replay_any as r2
+    return r2(v, run_scenario)
+
+
+OBLIGATIONS.append(('undelegated_amount_d8_equal', _undelegated_d8))
+REPLAY['undelegated_amount_d8_equal'] = _replay_d8
